@@ -43,6 +43,14 @@ def smtp_scripts(nrcpt, lmtp, rnd, quick):
         if lmtp:
             for combo2 in itertools.product([250, 450, 550], repeat=nrcpt):
                 out.append({'rcpt': list(combo), 'eod': list(combo2)})
+    if nrcpt >= 2:
+        for later in ('mail', 'data', ('eod', 0)):
+            for act in ('disconnect', 'malformed'):
+                for first in (550, 450):
+                    sc = {'rcpt': [250] * (nrcpt - 1) + [first]}
+                    put(sc, later, act)
+                    out.append(sc)
+    out.append({'ehlo': 500, 'helo': 250, 'data': 'disconnect'})
     out.append({'ehlo': 500, 'helo': 250})
     out.append({'ehlo': 500, 'helo': 550})
     return out
@@ -84,7 +92,7 @@ def main():
         per_recipient = False
     shapes = [(0, '', ''), (1, '', ''), (1, '5.1.1 no such user', ''), (1, '', '5.2.2 over quota'), (1, '4.2.0 try later', ''),
               (75, 'maildrop: busy', ''), (75, '', ''), (13, 'maildrop: no', ''), (13, '', 'maildrop: err'), (2, 'plain text', 'and stderr'),
-              (1, '5.1.1', ''), (255, '\xff\xfe', '')]
+              (1, '5.1.1', ''), (255, '\xff\xfe', ''), (-11, '', ''), (-9, 'partial output', '')]
 
     def expected(kind, status, out, err):
         if status == 0:
@@ -104,7 +112,8 @@ def main():
                     continue
                 # the child picks its behaviour from the recipient address
                 sh = 'case "$1" in ' + ' '.join(
-                    "r%d@*) printf '%s'; printf '%s' >&2; exit %d;;" % (i, shapes[c][1].replace("'", ''), shapes[c][2].replace("'", ''), shapes[c][0])
+                    "r%d@*) printf '%s'; printf '%s' >&2; %s;;" % (i, shapes[c][1].replace("'", ''), shapes[c][2].replace("'", ''),
+                                                                  ('exit %d' % shapes[c][0]) if shapes[c][0] >= 0 else ('kill -%d $$' % -shapes[c][0]))
                     for i, c in enumerate(combo)) + ' esac; cat >/dev/null'
                 if kind == 'pipe':
                     relay = PipeRelay(['sh', '-c', sh, 'x', '{recipient}'], timeout=20)
